@@ -52,7 +52,7 @@ def blocks_of(ch):
 
 def variants(seed, dm):
     """yield (tag, chart, hist, fault kind) with one injected fault each"""
-    base, hist = c01lib.make_case(seed, dm if dm != 'promela' else 'lua')
+    base, hist = c01lib.make_case(seed, dm)
     rng = random.Random(seed * 7 + 1)
     nb = len(blocks_of(base))
     for bi in range(nb):
@@ -247,7 +247,7 @@ def mutant_work(job):
     for sd in seeds:
         rng = random.Random(sd)
         dm = rng.choice(['lua', 'promela', 'null'])
-        ch, hist = c01lib.make_case(sd % 100000, dm if dm != 'promela' else 'lua')
+        ch, hist = c01lib.make_case(sd % 100000, dm)
         x = mutate(C.render(ch, dm), rng)
         try: xml.dom.minidom.parseString(x)
         except Exception: continue          # the statement is about well-formed XML
